@@ -1,6 +1,6 @@
 """Sidecar contracts for /repo/bisturi (never edits the repository)."""
 
-ALL_MODULES = ['c_fragments', 'c_structural', 'c_field', 'c_packet', 'c_descriptor', 'c_purity']
+ALL_MODULES = ['c_fragments', 'c_structural', 'c_field', 'c_packet', 'c_descriptor', 'c_purity', 'c_deferred']
 
 _COMMON_TRUST = [
     'builtin/library contracts of DESIGN.md 2.5-2.6 (assumed; cross-checked against CPython by pyvc/crosscheck.py, bounded)',
@@ -28,6 +28,18 @@ _FRAME_FUNCS = ['field:Int._unpack_fixed_and_primitive_size', 'field:Int._unpack
                 'descriptor:Auto.__get__', 'descriptor:Auto.sync_before_pack']
 
 PROPERTIES = {
+    'C09': dict(
+        level='proof',
+        functions=['deferred:_defer_method.<lambda#0>', 'deferred:_defer_method.<lambda#1>', 'deferred:_defer_method.<lambda#2>',
+                   'deferred:if_true_then_else', 'deferred:exec_compiled_expr'],
+        bounded=['deferred:compile_expr_into_callable'],
+        trusted_base=_COMMON_TRUST + ['operator callables (operator.add, ...) are opaque pure functions of their operands'],
+        assumptions=['BOUNDED stand-in (not proof): that compile_expr emits code whose evaluation by exec_compiled_expr equals the eager python expression '
+                     '(operand order included) is checked by the run-time twin on seeded random expression trees of depth <= 3 over the operator set, '
+                     'compared against the same recipe applied eagerly to the values; compile_expr (recursive, closure-building) and _defer_operations_of '
+                     '(method-name table) are outside the VC generator in this round',
+                     'chained comparisons / and / or / not cannot be deferred by operator overloading (outside the operator set)'],
+    ),
     'C13': dict(
         level='proof',
         functions=_FRAME_FUNCS,
@@ -142,6 +154,12 @@ PROPERTIES = {
 }
 
 MANIFEST_TEXT = {
+    'C09': dict(
+        text='Proof (unbounded) of the local contracts: the methods installed on fields and expressions build nodes with the operands in the order of the python data model '
+             '(forward op(self, other), reflected op(other, self)); if_true_then_else selects exactly as the eager conditional expression for every condition value and both branches '
+             '(falsy values included); exec_compiled_expr evaluates on a private copy of the operand stack and writes nothing else (no state shared between evaluations). '
+             'BOUNDED stand-in, labelled as such: the end-to-end meaning (compile_expr + exec_compiled_expr == eager python expression, same exceptions) is checked by the run-time twin on seeded random trees.',
+        note='compile_expr and _defer_operations_of are not under contract (recursive closure-building code outside the VC generator); the bounded twin is not counted in obligations/discharged.'),
     'C13': dict(
         text='Proof of the frame (modifies) clause and the freshness clauses of every pack / unpack / init function under contract: each writes only slots of its own packet argument, freshly allocated objects '
              'and (pack) the fragments argument; shared field objects are not written after compilation; objects stored into slots are fresh or immutable or supplied by the caller; pack leaves every field value unchanged. '
